@@ -15,6 +15,11 @@ INIT1 = (0x3bd39e10cb0ef593, 0xc0acf169b5f18a8c, 0xbe5466cf34e90c6c, 0x452821e63
 M64 = (1 << 64) - 1
 
 
+# keys that cancel the initialisation constants: v0 = init0 ^ key = 0, resp. v1 = init1 ^ rot32(key) = 0 (an all-zero
+# state vector is where "is this state blank/uninitialised?" heuristics misfire)
+FIXED_KEYS += [INIT0, tuple(((x << 32) | (x >> 32)) & M64 for x in INIT1)]
+
+
 def edge64(r):
     """lane values at carry / sign / width boundaries: the arithmetic of `update`, the length
     injection and the 32-bit rotations are value dependent only through carries and truncations"""
